@@ -908,10 +908,6 @@ theorem mailbox_at (cfg : Cfg) {t rest : Bytes} {s : S} (h : At t rest s) : Step
         by rw [← a.tail]; unfold S.fail; split <;> rfl, by rw [← a.st]; unfold S.fail; split <;> rfl,
         by simp [a.evs], by rw [← a.mute]; unfold S.fail; split <;> rfl⟩, hat.upd (by simp) (by simp), by simp [hc]⟩
 
-/-- handlers of the form ExpectCRLF; then something that neither reads nor answers -/
-def NoArgHandler (h : Handler) : Prop :=
-  ∃ body, BodyPure body ∧ h = .run (fun s => noArgs s body)
-
 theorem pure_of_events (body : S → Option Err × S)
     (h : ∀ s, ∃ (e : Option Err) (new : List Event) (st : St), body s = (e, { s with evs := new ++ s.evs, st := st }) ∧
       new.filter isTagged = [] ∧ (∀ p, Event.cont p ∉ new) ∧ (∀ x ∈ new, x ≠ Event.opaque)) : BodyPure body := by
@@ -919,6 +915,217 @@ theorem pure_of_events (body : S → Option Err × S)
   obtain ⟨e, new, st, hb, h1, h2, h3⟩ := h s
   rw [hb]
   exact ⟨rfl, rfl, rfl, rfl, rfl, new, rfl, h1, h2, h3⟩
+
+def NoTrailSP (t : Bytes) : Prop := t ≠ [] → t.getLast? ≠ some 32
+
+theorem getLast_suffix' (c t' : Bytes) (hne : t' ≠ []) : (c ++ t').getLast? = t'.getLast? := by
+  rw [List.getLast?_append]
+  cases h : t'.getLast? with
+  | none => simp [List.getLast?_eq_none_iff] at h; exact absurd h hne
+  | some x => simp
+
+theorem NoTrailSP.suffix {c tx : Bytes} (h : NoTrailSP (c ++ tx)) : NoTrailSP tx := by
+  intro hne
+  rw [← getLast_suffix' c tx hne]
+  exact h (by simp [hne])
+
+/-- a step that yields a value or gives up with the decoder error -/
+theorem bind_opt {α : Type} (t rest : Bytes) (s : S) (r : Option α × S) (k : α → S → Option Err × S)
+    (hsp : NoTrailSP t) (hl : s.lit = none) (hf : StepAt t rest s r.2)
+    (hk : ∀ a tx, At tx rest r.2 → NoTrailSP tx → r.2.crlf = false → ShapeFrom rest tx r.2 (k a r.2).2) :
+    ShapeFrom rest t s (match r with | (none, s') => (s'.err, s') | (some a, s') => k a s').2 := by
+  obtain ⟨c, tx, htc, a, hat, hc⟩ := hf
+  obtain ⟨v, s1⟩ := r
+  cases v with
+  | none => exact shapeFrom_stop rest t c tx s s1 htc a hat.inp hl hc
+  | some v => exact shapeFrom_trans rest t c tx s s1 _ htc a (hk v tx hat (htc ▸ hsp).suffix hc)
+
+theorem bind_bool (t rest : Bytes) (s : S) (r : Bool × S) (k : S → Option Err × S)
+    (hsp : NoTrailSP t) (hl : s.lit = none) (hf : StepAt t rest s r.2)
+    (hk : ∀ tx, At tx rest r.2 → NoTrailSP tx → r.2.crlf = false → ShapeFrom rest tx r.2 (k r.2).2) :
+    ShapeFrom rest t s (match r with | (false, s') => (s'.err, s') | (true, s') => k s').2 := by
+  obtain ⟨c, tx, htc, a, hat, hc⟩ := hf
+  obtain ⟨v, s1⟩ := r
+  cases v with
+  | false => exact shapeFrom_stop rest t c tx s s1 htc a hat.inp hl hc
+  | true => exact shapeFrom_trans rest t c tx s s1 _ htc a (hk tx hat (htc ▸ hsp).suffix hc)
+
+/-- handleLogin with atom arguments -/
+theorem hLogin_shapeFrom (cfg : Cfg) (t0 rest : Bytes) (s0 : S) (h0 : At t0 rest s0) (sp0 : NoTrailSP t0) :
+    ShapeFrom rest t0 s0 (hLogin cfg s0).2 := by
+  unfold hLogin
+  have st := expectSP_at h0
+  generalize S.expectSP s0 = r at st ⊢
+  obtain ⟨c, t1, htc, a, h1, hc⟩ := st
+  obtain ⟨v, s1⟩ := r
+  have sp1 : NoTrailSP t1 := (htc ▸ sp0).suffix
+  cases v
+  · exact shapeFrom_stop rest t0 c t1 s0 s1 htc a h1.inp h0.lit hc
+  refine shapeFrom_trans rest t0 c t1 s0 s1 _ htc a ?_
+  clear htc a hc c
+  dsimp only
+  have st := astring_at cfg h1
+  generalize S.astring cfg s1 = r at st ⊢
+  obtain ⟨c, t2, htc, a, h2, hc⟩ := st
+  obtain ⟨v, s2⟩ := r
+  have sp2 : NoTrailSP t2 := (htc ▸ sp1).suffix
+  cases v
+  · exact shapeFrom_stop rest t1 c t2 s1 s2 htc a h2.inp h1.lit hc
+  refine shapeFrom_trans rest t1 c t2 s1 s2 _ htc a ?_
+  clear htc a hc c
+  dsimp only
+  have st := expectSP_at h2
+  generalize S.expectSP s2 = r at st ⊢
+  obtain ⟨c, t3, htc, a, h3, hc⟩ := st
+  obtain ⟨v, s3⟩ := r
+  have sp3 : NoTrailSP t3 := (htc ▸ sp2).suffix
+  cases v
+  · exact shapeFrom_stop rest t2 c t3 s2 s3 htc a h3.inp h2.lit hc
+  refine shapeFrom_trans rest t2 c t3 s2 s3 _ htc a ?_
+  clear htc a hc c
+  dsimp only
+  have st := astring_at cfg h3
+  generalize S.astring cfg s3 = r at st ⊢
+  obtain ⟨c, t4, htc, a, h4, hc⟩ := st
+  obtain ⟨v, s4⟩ := r
+  have sp4 : NoTrailSP t4 := (htc ▸ sp3).suffix
+  cases v
+  · exact shapeFrom_stop rest t3 c t4 s3 s4 htc a h4.inp h3.lit hc
+  refine shapeFrom_trans rest t3 c t4 s3 s4 _ htc a ?_
+  clear htc a hc c
+  dsimp only
+  rename_i u p
+  exact noArgs_core (fun s => if s.st != .notAuth then (some .bad, s)
+      else (none, { (s.emit (call .login [u, p])) with st := .auth }))
+    (pure_of_events _ (fun s => by
+      split
+      · exact ⟨some .bad, [], s.st, rfl, rfl, by simp, by simp⟩
+      · exact ⟨none, [call .login [u, p]], .auth, rfl, rfl, by simp [call], by simp [call]⟩))
+    rest t4 _ h4.inp h4.eol h4.lit sp4
+
+/-- SP mailbox CRLF with an atom argument -/
+theorem oneMailbox_shapeFrom (cfg : Cfg) (body : Bytes → S → Option Err × S) (hb : ∀ m, BodyPure (body m))
+    (t0 rest : Bytes) (s0 : S) (h0 : At t0 rest s0) (sp0 : NoTrailSP t0) :
+    ShapeFrom rest t0 s0 (oneMailbox cfg s0 body).2 := by
+  unfold oneMailbox
+  have st := expectSP_at h0
+  generalize S.expectSP s0 = r at st ⊢
+  obtain ⟨c, t1, htc, a, h1, hc⟩ := st
+  obtain ⟨v, s1⟩ := r
+  have sp1 : NoTrailSP t1 := (htc ▸ sp0).suffix
+  cases v
+  · exact shapeFrom_stop rest t0 c t1 s0 s1 htc a h1.inp h0.lit hc
+  refine shapeFrom_trans rest t0 c t1 s0 s1 _ htc a ?_
+  clear htc a hc c
+  dsimp only
+  have st := mailbox_at cfg h1
+  generalize S.mailbox cfg s1 = r at st ⊢
+  obtain ⟨c, t2, htc, a, h2, hc⟩ := st
+  obtain ⟨v, s2⟩ := r
+  have sp2 : NoTrailSP t2 := (htc ▸ sp1).suffix
+  cases v
+  · exact shapeFrom_stop rest t1 c t2 s1 s2 htc a h2.inp h1.lit hc
+  refine shapeFrom_trans rest t1 c t2 s1 s2 _ htc a ?_
+  clear htc a hc c
+  dsimp only
+  rename_i m
+  exact noArgs_core (body m) (hb m) rest t2 _ h2.inp h2.eol h2.lit sp2
+
+theorem needAuth_pure (k : S → Option Err × S) (hk : BodyPure k) : BodyPure (fun s => needAuth s k) := by
+  intro s
+  show (fun r : Option Err × S => r.2.inp = s.inp ∧ r.2.pos = s.pos ∧ r.2.roles = s.roles ∧ r.2.lit = s.lit ∧
+    r.2.crlf = s.crlf ∧ ∃ new, r.2.evs = new ++ s.evs ∧ new.filter isTagged = [] ∧ (∀ p, Event.cont p ∉ new) ∧
+      (∀ e ∈ new, e ≠ Event.opaque)) (needAuth s k)
+  unfold needAuth
+  by_cases hc : checkAuth s = true
+  · rw [if_pos hc]; exact hk s
+  · rw [if_neg hc]; exact ⟨rfl, rfl, rfl, rfl, rfl, [], rfl, rfl, by simp, by simp⟩
+
+theorem hSelect_shapeFrom (cfg : Cfg) (ro : Bool) (t0 rest : Bytes) (s0 : S) (h0 : At t0 rest s0)
+    (sp0 : NoTrailSP t0) : ShapeFrom rest t0 s0 (hSelect cfg ro s0).2 := by
+  unfold hSelect
+  refine oneMailbox_shapeFrom cfg _ (fun m => needAuth_pure _ (pure_of_events _ (fun s => ?_))) t0 rest s0 h0 sp0
+  dsimp only
+  split
+  · exact ⟨none, [call .select [m, if ro then [49] else [48]], call .unselect], .selected, rfl, rfl,
+      by simp [call], by simp [call]⟩
+  · exact ⟨none, [call .select [m, if ro then [49] else [48]]], .selected, rfl, rfl, by simp [call], by simp [call]⟩
+
+theorem hMailbox_shapeFrom (cfg : Cfg) (fn : Fn) (t0 rest : Bytes) (s0 : S) (h0 : At t0 rest s0)
+    (sp0 : NoTrailSP t0) : ShapeFrom rest t0 s0 (hMailbox cfg fn s0).2 := by
+  unfold hMailbox
+  exact oneMailbox_shapeFrom cfg _ (fun m => needAuth_pure _ (pure_of_events _ (fun s =>
+    ⟨none, [call fn [m]], s.st, rfl, rfl, by simp [call], by simp [call]⟩))) t0 rest s0 h0 sp0
+
+theorem hRename_shapeFrom (cfg : Cfg) (t0 rest : Bytes) (s0 : S) (h0 : At t0 rest s0) (sp0 : NoTrailSP t0) :
+    ShapeFrom rest t0 s0 (hRename cfg s0).2 := by
+  unfold hRename
+  have st := expectSP_at h0
+  generalize S.expectSP s0 = r at st ⊢
+  obtain ⟨c, t1, htc, a, h1, hc⟩ := st
+  obtain ⟨v, s1⟩ := r
+  have sp1 : NoTrailSP t1 := (htc ▸ sp0).suffix
+  cases v
+  · exact shapeFrom_stop rest t0 c t1 s0 s1 htc a h1.inp h0.lit hc
+  refine shapeFrom_trans rest t0 c t1 s0 s1 _ htc a ?_
+  clear htc a hc c
+  dsimp only
+  have st := mailbox_at cfg h1
+  generalize S.mailbox cfg s1 = r at st ⊢
+  obtain ⟨c, t2, htc, a, h2, hc⟩ := st
+  obtain ⟨v, s2⟩ := r
+  have sp2 : NoTrailSP t2 := (htc ▸ sp1).suffix
+  cases v
+  · exact shapeFrom_stop rest t1 c t2 s1 s2 htc a h2.inp h1.lit hc
+  refine shapeFrom_trans rest t1 c t2 s1 s2 _ htc a ?_
+  clear htc a hc c
+  dsimp only
+  have st := expectSP_at h2
+  generalize S.expectSP s2 = r at st ⊢
+  obtain ⟨c, t3, htc, a, h3, hc⟩ := st
+  obtain ⟨v, s3⟩ := r
+  have sp3 : NoTrailSP t3 := (htc ▸ sp2).suffix
+  cases v
+  · exact shapeFrom_stop rest t2 c t3 s2 s3 htc a h3.inp h2.lit hc
+  refine shapeFrom_trans rest t2 c t3 s2 s3 _ htc a ?_
+  clear htc a hc c
+  dsimp only
+  have st := mailbox_at cfg h3
+  generalize S.mailbox cfg s3 = r at st ⊢
+  obtain ⟨c, t4, htc, a, h4, hc⟩ := st
+  obtain ⟨v, s4⟩ := r
+  have sp4 : NoTrailSP t4 := (htc ▸ sp3).suffix
+  cases v
+  · exact shapeFrom_stop rest t3 c t4 s3 s4 htc a h4.inp h3.lit hc
+  refine shapeFrom_trans rest t3 c t4 s3 s4 _ htc a ?_
+  clear htc a hc c
+  dsimp only
+  rename_i x y
+  exact noArgs_core (fun s => needAuth s fun s => (none, s.emit (call .rename [x, y])))
+    (needAuth_pure _ (pure_of_events _ (fun s =>
+      ⟨none, [call .rename [x, y]], s.st, rfl, rfl, by simp [call], by simp [call]⟩)))
+    rest t4 _ h4.inp h4.eol h4.lit sp4
+
+/-- handlers that, on a line without DQUOTE and "{", stay on the line -/
+def AtomHandler (h : Handler) : Prop :=
+  ∃ f, h = .run f ∧ ∀ t rest s, At t rest s → NoTrailSP t → ShapeFrom rest t s (f s).2
+
+theorem atom_names (cfg : Cfg) (name : Bytes)
+    (h : name ∈ [k_LOGIN, k_SELECT, k_EXAMINE, k_DELETE, k_SUBSCRIBE, k_UNSUBSCRIBE, k_RENAME]) :
+    AtomHandler (handlerOf cfg name) := by
+  simp only [List.mem_cons, List.mem_nil_iff, or_false] at h
+  rcases h with rfl | rfl | rfl | rfl | rfl | rfl | rfl
+  · exact ⟨_, rfl, hLogin_shapeFrom cfg⟩
+  · exact ⟨_, rfl, hSelect_shapeFrom cfg false⟩
+  · exact ⟨_, rfl, hSelect_shapeFrom cfg true⟩
+  · exact ⟨_, rfl, hMailbox_shapeFrom cfg .delete⟩
+  · exact ⟨_, rfl, hMailbox_shapeFrom cfg .subscribe⟩
+  · exact ⟨_, rfl, hMailbox_shapeFrom cfg .unsubscribe⟩
+  · exact ⟨_, rfl, hRename_shapeFrom cfg⟩
+
+/-- handlers of the form ExpectCRLF; then something that neither reads nor answers -/
+def NoArgHandler (h : Handler) : Prop :=
+  ∃ body, BodyPure body ∧ h = .run (fun s => noArgs s body)
 
 theorem noArg_noop : NoArgHandler (.run hNoop) :=
   ⟨fun s => (none, s), pure_of_events _ (fun s => ⟨none, [], s.st, rfl, rfl, by simp, by simp⟩), rfl⟩
@@ -1112,6 +1319,37 @@ theorem noarg_command_frame (cfg : Cfg) (hfix : cfg.fx.append = true) (s0 : S) (
   obtain ⟨e, s3, hr, hs⟩ := noArgs_shape name body hb rest t' s2 hi2 ht' hl2
     (fun hne => by rw [← getLast_suffix c t' hne, ← hct]; exact hsp)
   rw [hrun, hr]
+  exact hs
+
+/-- class (ii-a): LOGIN, SELECT, EXAMINE, DELETE, SUBSCRIBE, UNSUBSCRIBE, RENAME whose arguments are atoms:
+    a strict line that contains neither DQUOTE nor "{" -/
+theorem atom_command_frame (cfg : Cfg) (hfix : cfg.fx.append = true) (s0 : S) (l rest : Bytes)
+    (hi : s0.inp = l ++ 13 :: 10 :: rest) (hp : ∀ b ∈ l, 32 ≤ b ∧ b ≤ 126) (hsp : l.getLast? ≠ some 32)
+    (hq : 34 ∉ l) (hbr : 123 ∉ l)
+    (tag name : Bytes) (s2 : S) (hh : cmdHeader s0.reset = (some (tag, name), s2))
+    (hna : AtomHandler (handlerOf cfg name))
+    (go : Nat → Bool) (hgo : go (s0.pos + l.length + 2) = false) (fuel : Nat) (f0 : FramingSpec.Frame) :
+    let R := FramingSpec.frameLines go (fuel + 1) true s0.pos s0.inp f0
+    ∃ s1 new cls, readCommand cfg s0 = (true, s1) ∧
+      s1.evs = new ++ s0.evs ∧ new.filter isTagged = [Event.tagged tag cls] ∧ (∀ p, Event.cont p ∉ new) ∧
+      R.1.tag = some tag ∧
+      s1.roles = List.replicate (l.length + 2) Role.text ++ s0.roles ∧
+      (f0.roles ++ List.replicate (l.length + 2) FramingSpec.Role.text <+: R.1.roles) ∧
+      ((FramingSpec.litHeader l = none ∨ ∃ n, FramingSpec.litHeader l = some (n, false)) →
+        s1.inp = R.2 ∧ R.1.roles = f0.roles ++ List.replicate (l.length + 2) FramingSpec.Role.text ∧
+          s1.pos = s0.pos + (l.length + 2)) := by
+  obtain ⟨f, hrun, hf⟩ := hna
+  refine line_command_frame cfg hfix s0 l rest hi hp tag name s2 hh (by rw [hrun]; intro h; cases h)
+    (runHandler name (handlerOf cfg name) s2).1 (runHandler name (handlerOf cfg name) s2).2.1
+    (runHandler name (handlerOf cfg name) s2).2.2 rfl ?_ go hgo fuel f0
+  intro t' hc hi2 ht' hl2 _
+  obtain ⟨c, hct⟩ := hc
+  have hat : At t' rest (s2.emit (.dispatch name)) :=
+    ⟨hi2, ht', fun h => hq (by rw [hct]; simp [h]), fun h => hbr (by rw [hct]; simp [h]), hl2⟩
+  have hs := shape_of_from name rest t' s2 _ (hf t' rest _ hat
+    (fun hne => by rw [← getLast_suffix c t' hne, ← hct]; exact hsp))
+  rw [hrun]
+  unfold runHandler
   exact hs
 
 end GoImap.Framing
